@@ -76,8 +76,14 @@ class RemoteLogHandler(mlzlog.Handler):
                                         default=DEBUG)]
         for conn, lev in subscriptions.items():
             if record.levelno >= lev:
+                try:
+                    message = record.getMessage()
+                except Exception:
+                    # arguments not matching the format: as with other handlers, this
+                    # must not raise into the code doing the log call
+                    return
                 self.send_log(  # pylint: disable=not-callable
-                    conn, modname, levelname, record.getMessage())
+                    conn, modname, levelname, message)
 
     def set_conn_level(self, modname, conn, level):
         level = check_level(level)
